@@ -266,6 +266,11 @@ func (c *Channel) Invoke(ctx context.Context, method string, req, resp interface
 		}()
 		ctx := grpc.NewContextWithServerTransportStream(svrCtx, &sts)
 		v, err := md.Handler(handler, ctx, codec, c.unaryInterceptor)
+		// the reply is put together from here on: a goroutine the handler
+		// left behind that sets headers or trailers now is told that it is
+		// too late, instead of succeeding with metadata that - depending on
+		// how far the lines below have got - is silently lost
+		sts.Finish()
 		if h := sts.GetHeaders(); len(h) > 0 {
 			_ = writeMessage(ctx, nil, ch, frame{headers: h})
 		}
